@@ -199,10 +199,10 @@ func caseEdgesFor(g *core.Graph, bv *core.V) []core.EdgeRef {
 func ruleKeyReaders(c *core.Ctx) {
 	const rule = "C09-R2"
 	allowed := map[string]string{
-		"pdf.(*stdSecHandler).KeyForRef":      "derives the per-object key",
-		"pdf.createStdSecHandler":             "writer side: generates the key and derives /U /O /Perms from it",
-		"pdf.(*stdSecHandler).computeUAndUE":  "writer side: wraps the key into /UE",
-		"pdf.(*stdSecHandler).computeOAndOE":  "writer side: wraps the key into /OE",
+		"pdf.(*stdSecHandler).KeyForRef":     "derives the per-object key",
+		"pdf.createStdSecHandler":            "writer side: generates the key and derives /U /O /Perms from it",
+		"pdf.(*stdSecHandler).computeUAndUE": "writer side: wraps the key into /UE",
+		"pdf.(*stdSecHandler).computeOAndOE": "writer side: wraps the key into /OE",
 	}
 	c.Check(rule, "pdf.stdSecHandler.key/readers", "the file key is read only by KeyForRef and the writer-side derivations; nothing else can hand out or use key material", func(o *core.Ob) {
 		pkg := c.Prog.Pkg("pdf")
